@@ -11,6 +11,7 @@ import z3
 from .sources import Sources
 from .engine import Engine, Unsupported
 from . import calls
+from . import grid  # noqa: F401  (registers the group-level library contracts)
 
 
 def load_contracts():
